@@ -356,7 +356,16 @@ fn gen(ctx: &GenCtx, i: u64) -> Option<Run> {
                 let l = r.usize(300);
                 format!("{}{}.{}", hdr, b64(&r.bytes(l)), b64(&r.bytes_upto(20)))
             }
-            4 => ".".repeat(r.usize(8)),
+            4 if r.chance(1, 2) => ".".repeat(r.usize(8)),
+            4 => {
+                // a body segment made of (or containing several) multi-byte characters: its length in
+                // characters, in bytes and in base64 quanta all differ
+                let ch = *r.pick(&["é", "€", "中", "😀", "ß€", "\u{fffd}"]);
+                let n = 1 + r.usize(12);
+                let pre = "A".repeat(r.usize(6));
+                let f = if r.chance(1, 3) { format!(".{}", ch.repeat(1 + r.usize(4))) } else { String::new() };
+                format!("{}{}{}{}{}", proto.header(), pre, ch.repeat(n), "A".repeat(r.usize(6)), f)
+            }
             5 => format!("{}{}", proto.header(), "A".repeat(r.usize(600))),
             6 => {
                 // header with different case / whitespace
